@@ -41,6 +41,12 @@ CHECKS = {
             "is materialised as a crash image whose final name must hold nothing, the complete old or the complete new checkpoint; every checkpoint k written during real runs (clustering, blobs, pool object / real pool, kernel, resampler, progress bar, "
             "picklable and un-picklable stderr) is loaded into a fresh sampler (bit-equal current+history, n_total) and resumed (numbering k+1, calls, schedule, immutable prefix, run post-conditions).",
             "Trusted: the process-crash model (completed writes persist, in-flight write torn, buffers lost; no power-loss reordering); I/O is intercepted at open/os/pathlib as resolved by tempest.core and tempest.state_manager.", "DESIGN.md §4 C08"),
+    "C09": ("model_checking",
+            "explicit-state search over all sequences of library operations up to a depth, each executed from two pre-seeds on the real global generator plus once under an auditing tape; triple-run reproducibility over a covering array",
+            "All sequences (depth 2 quick / 3 thorough) over 19 public operations (mixture fits, hierarchical fit/predict, mode statistics, Student-t fit, trimming, resampling, the four pipeline steps, sample(), run(), posterior(resample), save, load) "
+            "are executed from pre-seeds 101 and 202: the generator state and the next draws afterwards must differ, and no library frame may call np.random.seed when no Sampler random_state is configured; every configuration x random_state "
+            "is run three times in one process (back to back, and after disturbing the global stream) and must be bit-identical, different seeds must differ; inside clustering runs the generator state after every iteration must depend on the pre-seed.",
+            "Trusted: numpy's legacy global generator semantics. Seeding from the user's own Sampler random_state is treated as legitimate.", "DESIGN.md §4 C09"),
     "C12": ("model_checking",
             "terminal-state exploration of deviation-bounded runs over a covering array; exhaustive product of posterior() options x trimming parameters x scripted resampling offsets on every terminal state, against the reference MIS model",
             "Every terminal state reached by the real run() with <=1 tape deviation per configuration (pairwise/3-wise covering array of kernel, resampler, clustering, metric, evaluation, boundary, n_total, ess_ratio, target) "
